@@ -120,6 +120,7 @@ Proof.
   - intros [H1 H2]. unfold code_nhs. rewrite H1. rewrite (ecmp_code_ext c fl fl'); auto.
 Qed.
 
+
 (* the VRF table entry the code maintains for destination [d] *)
 Definition code_vrf (fl : flags) (imp : list N) (d : dest) : list N :=
   match eligs (d_l d) with
@@ -127,6 +128,69 @@ Definition code_vrf (fl : flags) (imp : list N) (d : dest) : list N :=
   | [] => []
   end.
 
+(* the FIB keys a destination is responsible for, with the value the code keeps there *)
+Definition tracked (p : prefix) (k : option N * prefix) (valf : flags -> dest -> list N) : Prop :=
+  (k = (None, p) /\ valf = code_nhs) \/
+  (fst p = 1 /\ NoDup (map fst (c_vrfs c)) /\
+   exists id imp, In (id, imp) (c_vrfs c) /\ id <> 0 /\ k = (Some id, (2, snd p)) /\
+                  valf = fun fl d => code_vrf fl imp d).
+
+Lemma tracked_own p k valf : tracked p k valf -> own_key p k.
+Proof.
+  intros [[-> _]|[Hp [_ [id [imp [_ [_ [-> _]]]]]]]]; [left; auto | right; split; auto; eexists; eauto].
+Qed.
+
+Lemma tracked_inj p q k valf : tracked p k valf -> own_key q k -> q = p.
+Proof.
+  intros [[-> _]|[Hp [_ [id [imp [_ [_ [-> _]]]]]]]] [H|[Hq [id' H]]]; inversion H; subst; auto.
+  destruct p, q; cbn [fst snd] in *. subst. auto.
+Qed.
+
+Lemma vrf_fold_absent (F : N * list N -> list N) l id i cur :
+  ~ In id (map fst l) ->
+  fold_left (fib_step (Some id, (2, i)))
+    (flat_map (fun vr : N * list N => if fst vr =? 0 then [] else [Apply (Some (fst vr)) (2, i) (F vr)]) l) cur = cur.
+Proof.
+  revert cur. induction l as [|vr l IH]; cbn [flat_map map In fold_left]; auto.
+  intros cur Hn. rewrite fold_fib_app, IH by tauto.
+  destruct (fst vr =? 0); cbn [fold_left fib_step]; auto.
+  unfold fkey_eqb. cbn [fst snd optN_eqb].
+  assert (fst vr =? id = false) as -> by (apply N.eqb_neq; intro; apply Hn; auto). auto.
+Qed.
+
+Lemma vrf_fold_present (F : N * list N -> list N) l id imp i cur :
+  NoDup (map fst l) -> In (id, imp) l -> id <> 0 ->
+  fold_left (fib_step (Some id, (2, i)))
+    (flat_map (fun vr : N * list N => if fst vr =? 0 then [] else [Apply (Some (fst vr)) (2, i) (F vr)]) l) cur
+  = F (id, imp).
+Proof.
+  revert cur. induction l as [|vr l IH]; cbn [flat_map map In fold_left]; try tauto.
+  intros cur ND [->|HI] Hid; inversion ND; subst; rewrite fold_fib_app.
+  - cbn [fst]. assert (id =? 0 = false) as -> by lia. cbn [fold_left fib_step].
+    rewrite fkey_eqb_refl. apply vrf_fold_absent. auto.
+  - apply IH; auto.
+Qed.
+
+Lemma chg_ok_tracked fl fl' p k valf d d' ch :
+  tracked p k valf -> chg_ok fl fl' d d' ch ->
+  fold_left (fib_step k) (distribute_opt c V fl' p ch) (valf fl d) = valf fl' d'.
+Proof.
+  intros [[-> ->]|[Hp [ND [id [imp [HI [Hid [-> ->]]]]]]]] HC.
+  - apply chg_ok_main; auto.
+  - destruct ch as [x|]; cbn [chg_ok distribute_opt fold_left] in *.
+    + destruct HC as [H1 H2]. rewrite distribute_fixed, H2. cbn [negb fold_left fib_step].
+      assert (fkey_eqb (None, p) (Some id, (2, snd p)) = false) as -> by reflexivity.
+      assert (fst p =? 1 = true) as -> by lia.
+      unfold vrf_reqs.
+      rewrite (vrf_fold_present
+                 (fun vr => if match ch_cur x with b :: _ => can_import (snd vr) (e_attr b) | [] => false end
+                            then nhs_of (ecmp_code c fl' (ch_cur x)) else [])
+                 (c_vrfs c) id imp (snd p)); auto.
+      cbn [snd]. unfold code_vrf, code_nhs. rewrite H1. destruct (eligs (d_l d')); auto.
+    + destruct HC as [H1 H2]. unfold code_vrf, code_nhs. rewrite H1.
+      destruct (eligs (d_l d)) eqn:E; auto. destruct (can_import imp (e_attr e)); auto.
+      rewrite (ecmp_code_ext c fl fl'); auto.
+Qed.
 
 (* ---- list helpers *)
 Lemma filter_insert_false fl (f : entry -> bool) e l :
@@ -374,8 +438,8 @@ Proof. induction l; cbn; constructor; auto. Qed.
 Record dstep_ok (fl fl' : flags) (p : prefix) (d : dest) (res : dest * list req) : Prop := {
   ds_own : Forall (own_req p) (snd res);
   ds_sorted : ssorted c fl (d_l d) -> ssorted c fl' (d_l (fst res));
-  ds_main : ssorted c fl (d_l d) ->
-            fold_left (fib_step (None, p)) (snd res) (code_nhs fl d) = code_nhs fl' (fst res)
+  ds_main : forall k valf, tracked p k valf -> ssorted c fl (d_l d) ->
+            fold_left (fib_step k) (snd res) (valf fl d) = valf fl' (fst res)
 }.
 
 Lemma dstep_of_chg fl fl' p d d' ch pre post :
@@ -387,8 +451,8 @@ Proof.
   intros HC HS Hpre Hpost. constructor; cbn [fst snd]; auto.
   - apply Forall_app. split. apply nht_only_own; auto.
     apply Forall_app. split. apply distribute_opt_own. apply nht_only_own; auto.
-  - intro H. rewrite !fold_fib_app. rewrite (nht_only_fib _ pre) by auto.
-    rewrite (nht_only_fib _ post) by auto. apply chg_ok_main. auto.
+  - intros k valf HT H. rewrite !fold_fib_app. rewrite (nht_only_fib _ pre) by auto.
+    rewrite (nht_only_fib _ post) by auto. apply chg_ok_tracked; auto.
 Qed.
 
 Lemma dstep_compose fl fl' fl'' p d r1 r2 :
@@ -397,7 +461,7 @@ Lemma dstep_compose fl fl' fl'' p d r1 r2 :
 Proof.
   intros [A1 A2 A3] [B1 B2 B3]. constructor; cbn [fst snd]; auto.
   - apply Forall_app. auto.
-  - intro H. rewrite fold_fib_app, A3 by auto. apply B3. auto.
+  - intros k valf HT H. rewrite fold_fib_app, (A3 k valf) by auto. apply B3; auto.
 Qed.
 
 Lemma dstep_id fl p d : dstep_ok fl fl p d (d, []).
@@ -437,27 +501,30 @@ Record Inv' (ks : list prefix) (g : prefix -> dest) (fl : flags) (reqs : list re
   inv_sorted : forall p, ssorted c fl (d_l (g p));
   inv_nodup : NoDup ks;
   inv_keys : forall p, ~ In p ks -> d_l (g p) = [];
-  inv_main : forall p, fib_replay reqs (None, p) = code_nhs fl (g p)
+  inv_main : forall p k valf, tracked p k valf -> fib_replay reqs k = valf fl (g p)
 }.
 Definition Inv (s : st) (reqs : list req) : Prop := Inv' (s_keys s) (s_get s) (s_fl s) reqs.
 
-Lemma own_key_main p q : own_key q (None, p) -> p = q.
-Proof. intros [H|[_ [id H]]]; inversion H; auto. Qed.
-
-Lemma fold_flat_map_main (g : prefix -> list req) p ks cur :
+Lemma fold_flat_map_main (g : prefix -> list req) p k valf ks cur :
+  tracked p k valf ->
   NoDup ks -> (forall q, Forall (own_req q) (g q)) ->
-  fold_left (fib_step (None, p)) (flat_map g ks) cur =
-  if existsb (pfx_eqb p) ks then fold_left (fib_step (None, p)) (g p) cur else cur.
+  fold_left (fib_step k) (flat_map g ks) cur =
+  if existsb (pfx_eqb p) ks then fold_left (fib_step k) (g p) cur else cur.
 Proof.
-  intros ND HO. revert cur. induction ks as [|q t IH]; cbn [flat_map existsb]; auto.
+  intros HT ND HO. revert cur. induction ks as [|q t IH]; cbn [flat_map existsb]; auto.
   intro cur. inversion ND; subst. rewrite fold_fib_app.
   destruct (pfx_eqb p q) eqn:E; cbn [orb].
   - apply pfx_eqb_eq in E. subst q. rewrite IH by auto.
     assert (existsb (pfx_eqb p) t = false) as ->; auto.
     apply not_true_iff_false. intro HE. apply existsb_exists in HE. destruct HE as [x [Hx HE]].
     apply pfx_eqb_eq in HE. subst. auto.
-  - rewrite (fold_fib_foreign (None, p) q (g q)); auto.
-    intro HK. apply own_key_main in HK. subst. rewrite pfx_eqb_refl in E. discriminate.
+  - rewrite (fold_fib_foreign k q (g q)); auto.
+    intro HK. apply (tracked_inj p q k valf HT) in HK. subst. rewrite pfx_eqb_refl in E. discriminate.
+Qed.
+
+Lemma valf_empty p k valf fl d : tracked p k valf -> d_l d = [] -> valf fl d = [].
+Proof.
+  intros [[_ ->]|[_ [_ [id [imp [_ [_ [_ ->]]]]]]]] H; unfold code_vrf, code_nhs; rewrite H; reflexivity.
 Qed.
 
 Lemma code_nhs_empty fl d : d_l d = [] -> code_nhs fl d = [].
@@ -473,15 +540,15 @@ Proof.
   constructor; auto.
   - intro p. apply (ds_sorted _ _ _ _ _ (HD p)). auto.
   - intros p Hp. apply HE. auto.
-  - intro p. unfold fib_replay. rewrite fold_fib_app. fold (fib_replay reqs (None, p)). rewrite I4.
-    rewrite (fold_flat_map_main (fun q => snd (f q (s_get s q))) p (s_keys s)); auto.
+  - intros p k valf HT. unfold fib_replay. rewrite fold_fib_app. fold (fib_replay reqs k). rewrite (I4 p k valf HT).
+    rewrite (fold_flat_map_main (fun q => snd (f q (s_get s q))) p k valf (s_keys s)); auto.
     2:{ intro q. apply (ds_own _ _ _ _ _ (HD q)). }
     destruct (existsb (pfx_eqb p) (s_keys s)) eqn:E.
-    + apply (ds_main _ _ _ _ _ (HD p)). auto.
+    + apply (ds_main _ _ _ _ _ (HD p)); auto.
     + assert (Hp : ~ In p (s_keys s)).
       { intro Hin. assert (existsb (pfx_eqb p) (s_keys s) = true); try congruence.
         apply existsb_exists. exists p. split; auto. apply pfx_eqb_refl. }
-      rewrite !code_nhs_empty; auto. apply HE. auto.
+      rewrite !(valf_empty p k valf); auto. apply HE. auto.
 Qed.
 
 Lemma add_key_nodup p ks : NoDup ks -> NoDup (add_key p ks).
@@ -513,11 +580,11 @@ Proof.
   - intros p Hp. unfold upd. destruct (pfx_eqb p p0) eqn:E.
     + apply pfx_eqb_eq in E. subst. auto.
     + apply I3. auto.
-  - intro p. unfold fib_replay. rewrite fold_fib_app. fold (fib_replay reqs (None, p)). rewrite I4.
+  - intros p k valf HT. unfold fib_replay. rewrite fold_fib_app. fold (fib_replay reqs k). rewrite (I4 p k valf HT).
     unfold upd. destruct (pfx_eqb p p0) eqn:E.
     + apply pfx_eqb_eq in E. subst. auto.
-    + apply (fold_fib_foreign (None, p) p0); auto.
-      intro HK. apply own_key_main in HK. subst. rewrite pfx_eqb_refl in E. discriminate.
+    + apply (fold_fib_foreign k p0); auto.
+      intro HK. apply (tracked_inj p p0 k valf HT) in HK. subst. rewrite pfx_eqb_refl in E. discriminate.
 Qed.
 
 
@@ -684,6 +751,7 @@ Qed.
 Lemma Inv0 : Inv st0 [].
 Proof.
   constructor; cbn; auto. constructor.
+  intros p k valf HT. symmetry. apply (valf_empty p k valf); auto.
 Qed.
 
 Lemma run_inv ops : forall s reqs, Inv s reqs ->
@@ -704,9 +772,34 @@ Theorem C20_fib_replay_eq_ecmp_of_best : forall (ops : list op) (p : prefix),
   fib_replay reqs (None, p) = fib_spec c (s_fl s) (d_l (s_get s p)).
 Proof.
   intros ops p. cbn zeta. pose proof (run_inv ops st0 [] Inv0) as H. cbn [app] in H.
-  destruct H as [I1 I2 I3 I4]. rewrite I4. unfold code_nhs, fib_spec.
+  destruct H as [I1 I2 I3 I4]. rewrite (I4 p (None, p) code_nhs) by (left; auto). unfold code_nhs, fib_spec.
   change (selectable (d_l (s_get (fst (run c V st0 ops)) p))) with (eligs (d_l (s_get (fst (run c V st0 ops)) p))).
   rewrite ecmp_code_spec; auto. apply ssorted_filter. auto.
+Qed.
+
+
+(* C20 (1), VRF tables: for a VPN prefix, every VRF with a kernel table holds the
+   same next-hop list when its import targets match the best path, nothing otherwise;
+   the best path used is a best path of the Spec (rank-first selectable path) *)
+Theorem C20_vrf_fib_replay_eq_ecmp_of_best : forall (ops : list op) (i id : N) (imp : list N),
+  NoDup (map fst (c_vrfs c)) -> In (id, imp) (c_vrfs c) -> id <> 0 ->
+  let s := fst (run c Fixed st0 ops) in
+  let reqs := snd (run c Fixed st0 ops) in
+  let l := d_l (s_get s (1, i)) in
+  fib_replay reqs (Some id, (2, i)) = vrf_spec c (s_fl s) imp l (hd_error (selectable l)) /\
+  (forall b, hd_error (selectable l) = Some b -> is_best c (s_fl s) l b).
+Proof.
+  intros ops i id imp ND HI Hid. cbn zeta. pose proof (run_inv ops st0 [] Inv0) as H. cbn [app] in H.
+  destruct H as [I1 I2 I3 I4]. split.
+  - rewrite (I4 (1, i) (Some id, (2, i)) (fun fl d => code_vrf fl imp d)).
+    2:{ right. cbn [fst snd]. split; auto. split; auto. exists id, imp. auto. }
+    unfold code_vrf, vrf_spec, fib_spec, code_nhs.
+    change (selectable (d_l (s_get (fst (run c V st0 ops)) (1, i))))
+      with (eligs (d_l (s_get (fst (run c V st0 ops)) (1, i)))).
+    destruct (eligs (d_l (s_get (fst (run c V st0 ops)) (1, i)))) as [|b t] eqn:E; auto.
+    cbn [hd_error]. destruct (can_import imp (e_attr b)); auto.
+    rewrite <- E. rewrite ecmp_code_spec; auto. apply ssorted_filter. auto.
+  - intros b Hb. apply head_is_best; auto.
 Qed.
 
 End Fib.
